@@ -522,7 +522,7 @@ func c13PkgReceive(c *fw.Case, env *fw.Env, o *fw.Obs, p *c13Params) *fw.Obs {
 			return err
 		}
 		recv := apiutils.NewObjectReceiver(dst, expected, logr.Discard())
-		_, _, err = sendAll(sender, recv, nil)
+		_, _, err = sendAll(sender, recv, nil, nil)
 		return err
 	}
 	rec := pre.Clone()
